@@ -258,6 +258,34 @@ def r05_5(prog, out):
                                 fl |= sl.of(bid, bi.call_at(o.data).args[0]).fields
                         if (s_ids.fields & fl) and (s_secs.fields & fl) and len(fl) >= 2:
                             guarded = True
+            if not guarded and not derived and b.parent:
+                # the call sits in a closure / task: a comparison in an enclosing body that dominates the closure's creation
+                s_ids, s_secs = sl.of_resolved(bid, a_ids), sl.of_resolved(bid, a_secs)
+                child, x = bid, b
+                while x is not None and x.parent and not guarded:
+                    pid = prog.qual(x, x.parent)
+                    pi = prog.info(pid)
+                    if pi is None:
+                        break
+                    site = None
+                    for blk in pi.body.blocks:
+                        for st in blk.stmts:
+                            if st.k == "assign" and st.rv.k == "agg" and st.rv.j.get("ak") in ("closure", "coroutine") and prog.qual(pi.body, st.rv.j["def"]) == child:
+                                site = blk.idx
+                    if site is not None:
+                        for blk in pi.body.blocks:
+                            if blk.cleanup or not pi.cfg.dominates(blk.idx, site):
+                                continue
+                            for st in blk.stmts:
+                                if st.k == "assign" and st.rv.k == "bin" and st.rv.j["op"] in ("Ne", "Eq"):
+                                    fl = set()
+                                    for op in st.rv.ops:
+                                        o = pi.trace(op)
+                                        if o.kind == "call" and pi.call_at(o.data).callee.path.endswith("::len"):
+                                            fl |= sl.of(pid, pi.call_at(o.data).args[0]).fields
+                                    if (s_ids.fields & fl) and (s_secs.fields & fl) and len(fl) >= 2:
+                                        guarded = True
+                    child, x = pid, pi.body
             if derived:
                 out.holds(key, bi.loc(bb), "the seconds list is built with one element per ack id")
             elif guarded:
